@@ -1,6 +1,7 @@
 #!/bin/bash
 # usage: mutate.sh <file> <python-regex-old> <new> -- <ID> [<ID>...]   (dev helper: apply a one-off mutation to /repo, run quick checks, revert)
 set -u
+export VERIF_EVIDENCE_DIR=/verif/harness/target/scratch-evidence  # never overwrite committed evidence with results from a broken tree
 FILE="$1"; OLD="$2"; NEW="$3"; shift 4
 cd /repo || exit 2
 git diff --quiet || { echo "repo dirty"; exit 2; }
